@@ -550,7 +550,7 @@ def _shared_selection(tier, seed):
     sample of the classical ones (reference derivation applies) and of the rest, plus seeded random grammars"""
     base = [g for g in corpus.systematic(tier) if "maybe_loop" not in g.tags]
     th = tier == "thorough"
-    s_act, s_cls, s_rest = (2, 6, 24) if th else (1, 3, 12)
+    s_act, s_cls, s_rest = (4, 12, 48) if th else (1, 3, 12)
     sel = []
     cnt = {"act": 0, "cls": 0, "rest": 0}
     for g in base:
@@ -558,8 +558,8 @@ def _shared_selection(tier, seed):
         cnt[c] += 1
         if (cnt[c] + seed) % {"act": s_act, "cls": s_cls, "rest": s_rest}[c] == 0:
             sel.append(g)
-    sel += corpus.random_grammars(seed, 60 if th else 10, start_gid=0)
-    sel += corpus.random_grammars(seed + 7919, 80 if th else 16, start_gid=0, classical_only=True)
+    sel += corpus.random_grammars(seed, 40 if th else 10, start_gid=0)
+    sel += corpus.random_grammars(seed + 7919, 50 if th else 16, start_gid=0, classical_only=True)
     return sel
 
 
@@ -638,7 +638,8 @@ def _c04_family(tier):
         # the same constructs under the calling contexts of the shared corpus (inherited modes / enclosing guards)
         base = list(out)
         for i, g in enumerate(base):
-            for cname, wrap in corpus.contexts()[1:]:
+            ctxs = corpus.contexts()[1:]
+            for cname, wrap in [ctxs[(i + j) % len(ctxs)] for j in range(4)]:
                 if "loop" in g.tags and cname == "star_body" and i % 2:
                     continue
                 t = corpus.T(g.root, g.surface["G"] if g.surface else None)
